@@ -3,6 +3,8 @@ import WireV.Emit
 import WireV.Sig
 import WireV.Names
 import WireV.NameEmit
+import WireV.Cmd
+import WireV.Generated.Tables
 /-! # WireV.Driver — line protocol of the unit tier (one request per line, one reply per line) -/
 namespace WireV
 
@@ -257,6 +259,58 @@ def runNameFile (ws : List String) : String :=
     let (_, out) := evs.foldl step ({ fileScope := fileScope, imports := [], values := [] }, [])
     joinWith " ; " out
 
+def pPkgOut : P PkgOut := do
+  return { outPath := ← pNat, errs := ← pBool, content := ← pNat }
+
+def pLoad : P LoadRes := do
+  let ok ← pBool
+  if ok then return .ok (← pMany pPkgOut) else return .loadErr
+
+def fsStr (fs : FS) : String :=
+  joinWith "," (sortStrs (fs.map (fun kv => s!"{pad kv.1}={kv.2}")))
+
+def pFS : P FS := pMany (do return (← pNat, ← pNat))
+
+def pOp : P Op := do
+  match (← pNat) with
+  | 0 => return .switch (← pNat)
+  | 1 => return .gen
+  | 2 => return .diff
+  | 3 => return .delete (← pNat)
+  | _ => return .clobber (← pNat) (← pNat)
+
+/-- `cmd gen|diff headerOk load nUnwritable paths… fs` -/
+def runCmd (toks : List Nat) : String :=
+  let r : Option (String × List Nat) := (do
+    let isDiff ← pBool
+    let headerOk ← pBool
+    let load ← pLoad
+    let unw ← pMany pNat
+    let fs ← pFS
+    if isDiff then
+      return s!"exit {diffExec Generated.diffHeaderStatus headerOk load fs} fs {fsStr fs}"
+    else
+      let hdr := if headerOk then (genExec true load (fun p => !unw.contains p) fs) else (fs, Generated.genHeaderStatus)
+      return s!"exit {hdr.2} fs {fsStr hdr.1}").run toks
+  match r with
+  | some (s, []) => s
+  | _ => "bad-request"
+
+/-- `hist nvariants load… variant fs nops op…` -/
+def runHist (toks : List Nat) : String :=
+  let r : Option (String × List Nat) := (do
+    let loads ← pMany pLoad
+    let v0 ← pNat
+    let fs ← pFS
+    let ops ← pMany pOp
+    let A : Nat → LoadRes := fun v => (loads[v]?).getD LoadRes.loadErr
+    let (s, exits) := runH A Generated.diffHeaderStatus { fs := fs, variant := v0 } ops
+    let es := exits.map (fun (e : Option Nat) => match e with | some n => toString n | none => "-")
+    return s!"exits {joinWith "," es} fs {fsStr s.fs}").run toks
+  match r with
+  | some (s, []) => s
+  | _ => "bad-request"
+
 def parseNats (ws : List String) : Option (List Nat) := ws.mapM String.toNat?
 
 def handleLine (line : String) : String :=
@@ -268,6 +322,12 @@ def handleLine (line : String) : String :=
     | none => "bad-request nat"
   | "plan" :: rest => match parseNats rest with
     | some ns => runPlanner true ns
+    | none => "bad-request nat"
+  | "cmd" :: rest => match parseNats rest with
+    | some ns => runCmd ns
+    | none => "bad-request nat"
+  | "hist" :: rest => match parseNats rest with
+    | some ns => runHist ns
     | none => "bad-request nat"
   | "namefile" :: rest => runNameFile rest
   | "disamb" :: rest => runNames "disamb" rest
